@@ -4,6 +4,8 @@ import (
 	"encoding/json"
 	"fmt"
 	z "github.com/Oudwins/zog"
+	"github.com/Oudwins/zog/conf"
+	"github.com/Oudwins/zog/zconst"
 	"sort"
 	"strings"
 
@@ -158,7 +160,34 @@ func c09Flat(c *core.Ctx) bool {
 	return true
 }
 
+// c09PlaceholderText: a message template that uses {{value}} next to a parameter, and an input whose text looks like that parameter's
+// placeholder: the same call gives the same message on every run.
+func c09PlaceholderText(c *core.Ctx) bool {
+	own := zconst.LangMap{zconst.TypeString: {"role_check": "{{value}} is not available to {{role}} accounts ({{value}}, {{tier}})", zconst.IssueCodeFallback: "string is invalid"}}
+	seen := map[string]int{}
+	for i := 0; i < 40; i++ {
+		var s string
+		l := z.String().TestFunc(func(v any, ctx z.Ctx) bool { return false }, z.IssueCode("role_check"), z.Params(map[string]any{"role": "guest", "tier": "{{role}}/{{value}}"})).
+			Parse("{{role}}-{{tier}}", &s, z.WithIssueFormatter(conf.NewDefaultFormatter(own)))
+		c.Eval(1)
+		if len(l) != 1 {
+			seen[fmt.Sprintf("%d issues", len(l))]++
+			continue
+		}
+		seen[l[0].Message]++
+	}
+	if len(seen) != 1 {
+		c.Violation("result-depends-on-order|message-placeholders", map[string]any{"template": own[zconst.TypeString]["role_check"], "params": "role=guest, tier={{role}}/{{value}}", "input": "{{role}}-{{tier}}", "distinct_messages_over_40_runs": seen})
+		return false
+	}
+	c.Count("placeholder_text_rounds", 1)
+	return true
+}
+
 func (c09) RunCase(c *core.Ctx) {
+	if c.Case%100 == 7 && !c09PlaceholderText(c) {
+		return
+	}
 	if c.Case%5 == 4 && !c09Flat(c) {
 		return
 	}
